@@ -107,7 +107,8 @@ for i in range(nbase):
     a0 = [f[0] for f in f0]
     sc = scales_for(seq, rho, lam)
     # (a) density scaling
-    k = rng.choice([2.0, 0.5, 10.0, round(rng.uniform(0.05, 20), 3), float("%.3g" % (10 ** rng.uniform(-3, 3)))])
+    k = rng.choice([2.0, 0.5, 10.0, round(rng.uniform(0.05, 20), 3), float("%.3g" % (10 ** rng.uniform(-3, 3))),
+                    float("%.3g" % (10 ** rng.uniform(-15, -6))), float("%.3g" % (10 ** rng.uniform(3, 6)))])
     r1, f1, t1 = call(seq, k * rho, 1, False, [lam], "density*k")
     stats["density_scaling"] += 1
     if f1 is not None:
